@@ -19,4 +19,6 @@ def generate(rng, tier):
     n = 1200 if tier == 'thorough' else 50
     import focus
     return (pipeline.guided_cases(rng, n, pipeline.exchange_history, 'xchg', cfgmod=mod) + pipeline.cases(rng, n // 2, nops=16)
-            + focus.username_restore_cases(rng, 120 if tier == 'thorough' else 12))
+            + focus.username_restore_cases(rng, 120 if tier == 'thorough' else 12)
+            # the client association a reply goes back to is decided at arrival (UDP: source address AND port, both families)
+            + __import__('C10').udp_cases(rng, 120 if tier == 'thorough' else 12))
